@@ -298,7 +298,24 @@ type valCtx struct{}
 func (valCtx) ErrorHelpText() []string     { return nil }
 func (valCtx) AllowIncompletePaths() bool { return false }
 
+var reSingleMinMax = regexp.MustCompile(`(^|\|)\s*(min|max|min\s*\.\.\s*min|max\s*\.\.\s*max)\s*(\||$)`)
+
+// singleMinMax: some restriction of the chain has a part that is just min or max (or min..min,
+// max..max): the single smallest / largest value of the base.
+func (c chain) singleMinMax() bool {
+	for _, l := range c.Levels {
+		if reSingleMinMax.MatchString(strings.TrimPrefix(l.Restr, "length:")) && !strings.HasPrefix(l.Restr, "pattern:") {
+			return true
+		}
+	}
+	return false
+}
+
 func (c chain) shape() string {
+	if c.singleMinMax() {
+		// one root cause whatever the base type and depth: one key
+		return "part-that-is-just-min-or-max"
+	}
 	var p []string
 	for _, l := range c.Levels {
 		k := "-"
@@ -539,8 +556,43 @@ func runFamilies(c *engine.Ctx) {
 var numLattice = []string{"", "min..max", "0..10", "2..8", "0..4 | 6..10", "0..4 | 5..10", "5", "3..2", "0..5 | 5..8", "0..5 | 3..8", "-200..0", "min..5", "5..max", "length:1..2"}
 var strLattice = []string{"", "length:min..max", "length:0..10", "length:2..8", "length:0..4 | 6..10", "length:1", "length:3..2", "length:0..2 | 2..5", "length:min..5", "pattern:[a-z]*", "pattern:a.*&.*b", "pattern:[0-9]+", "0..5"}
 
+// runMinMaxSpellings: a typedef (unrestricted, one range, two parts) and a leaf restriction written
+// with min and max in every position: as lower bound, as upper bound, as a part of their own.
+func runMinMaxSpellings(c *engine.Ctx) {
+	for _, base := range []string{"int8", "uint8", "int64", "uint64", "decimal64/2", "string"} {
+		pre := ""
+		if base == "string" {
+			pre = "length:"
+		}
+		for _, r0 := range []string{"", "0..10", "0..4 | 6..10"} {
+			for _, d := range []string{"min", "max", "min..min", "max..max", "min..max", "min..4", "6..max", "min | max", "min | 6..max", "0..4 | max", "min..2 | max", "min | 2..4 | max"} {
+				if r0 == "" && strings.ContainsAny(d, "0246") && strings.Contains(d, "0..4") && base == "int8" {
+					// (0..4 is inside every base: nothing special)
+				}
+				ch := chain{Base: base, Levels: []level{{}, {Restr: pre + d}}}
+				if r0 != "" {
+					ch.Levels[0].Restr = pre + r0
+				}
+				id := "minmax:" + ch.yang()
+				if !c.Owns(id) || !c.Case(id) {
+					continue
+				}
+				c.Add("states", 1)
+				c.Add("transitions", 2)
+				c.Nontrivial()
+				vs, outcome := check(ch)
+				c.Outcome("minmax:" + outcome)
+				for _, v := range vs {
+					c.Report(v)
+				}
+			}
+		}
+	}
+}
+
 func run(c *engine.Ctx) {
 	runFamilies(c)
+	runMinMaxSpellings(c)
 	bases := []string{"int8", "uint8", "int64", "uint64", "decimal64/1", "decimal64/2", "decimal64/18", "string"}
 	nTypedefs := 2
 	nlat := 11
